@@ -191,6 +191,15 @@ def _templates():
     # D64: on a one-partition frame the predicate operands count as broadcasts
     add("partitions-stacked-filters", [S("v1", "filter_pred", ["A"], pred=P("ne", "s", "b")), S("v2", "filter_pred", ["v1"], pred=P("le", "i", 5)), S("v3", "partitions", ["v2"], sel=[0, 0])], tags=("single",))
     add("partitions-filter-assign", [S("v1", "filter_pred", ["A"], pred=P("gt", "g", 0)), S("v2", "assign", ["v1"], items=[["z", {"a": "f", "op": "add", "b": "g"}]]), S("v3", "partitions", ["v2"], sel=[0])], tags=("single",))
+    # D73: index / len of stacked filters (frame with repeating index labels: INDEXES_A[1])
+    add("stacked-filters-index", [S("v1", "filter_pred", ["A"], pred=P("ne", "s", "b")), S("v2", "filter_pred", ["v1"], pred=P("le", "i", 5)), S("v3", "index_of", ["v2"])])
+    add("stacked-filters-index-frame", [S("v1", "filter_pred", ["A"], pred=P("gt", "g", 0)), S("v2", "filter_pred", ["v1"], pred=P("ge", "k", 1)), S("v3", "index_to", ["v2"], how="to_frame")])
+    # D72: operators that copy the divisions of a partition-selected source
+    for name, step in (("cumframe", S("v2", "cum_frame", ["v1"], f="cumsum")), ("repartition-same", S("v2", "repartition", ["v1"], npartitions=2)), ("repartition-more", S("v2", "repartition", ["v1"], npartitions=3)),
+                       ("shift", S("v2", "shift", ["v1"], f="shift", periods=1)), ("rolling", S("v2", "rolling", ["v1"], window=2, min_periods=1, center=False, how="sum")), ("head", S("v2", "head", ["v1"], n=2, npartitions=-1, how="head"))):
+        add(f"partitions-then-{name}", [S("v0", "cols", ["A"], cols=["f", "i"]), S("v1", "partitions", ["v0"], sel=[2, 0]), step])
+    add("partitions-then-merge-index", [S("v0", "cols", ["A"], cols=["f", "i"]), S("v1", "partitions", ["v0"], sel=[1, 2]), S("v2", "cols", ["A"], cols=["g", "rid"]), S("v3", "partitions", ["v2"], sel=[1, 2]), S("v4", "merge_index", ["v1", "v3"], how="inner")])
+    add("partitions-then-broadcast-join", [S("v1", "partitions", ["A"], sel=[1, 2]), S("v2", "merge", ["v1", "B"], on=["k"], how="left", suffixes=None, broadcast=True, shuffle_method=None)])
     add("partitions-red-reuse", [S("v1", "col", ["A"], col="f"), S("v2", "series_red_reuse", ["v1"], op="sub", red="min"), S("v3", "partitions", ["v2"], sel=[2])])
     add("repartition-proj", [S("v1", "repartition", ["A"], npartitions=2), S("v2", "cols", ["v1"], cols=["f"])])
     add("map_partitions-proj", [S("v1", "map_partitions", ["A"], f="add_one_numeric"), S("v2", "cols", ["v1"], cols=["f", "k"])])
@@ -212,6 +221,35 @@ def _templates():
                                    S("v8", "bcast_scalar", ["v1", "v7"], op="add", r=False)])
     add("broadcast-two-reductions", [S("v1", "col", ["A"], col="f"), S("v2", "reduce", ["v1"], how="max", split_every=None), S("v3", "col", ["A"], col="g"), S("v4", "reduce", ["v3"], how="min", split_every=None),
                                      S("v5", "bcast_scalar", ["v1", "v2"], op="sub", r=False), S("v6", "bcast_scalar", ["v5", "v4"], op="mul", r=True)])
+    # --- third operator batch: projection / filter rules of the new expression classes
+    add("query-proj", [S("v1", "query", ["A"], q="f > 0 and k < 3"), S("v2", "cols", ["v1"], cols=["g", "rid"])])
+    add("query-after-assign", [S("v1", "assign", ["A"], items=[["z", {"a": "f", "op": "add", "b": "g"}]]), S("v2", "query", ["v1"], q="z > 1 or i == 5"), S("v3", "cols", ["v2"], cols=["z", "k"])])
+    add("eval-proj-unused", [S("v1", "eval_assign", ["A"], e="ev = f * g + 1"), S("v2", "cols", ["v1"], cols=["k", "rid"])])
+    add("eval-overwrite-filter", [S("v1", "eval_assign", ["A"], e="f = f + i + 1"), S("v2", "filter_pred", ["v1"], pred=P("gt", "f", 3)), S("v3", "cols", ["v2"], cols=["f", "rid"])])
+    add("method-op-filter", [S("v1", "cols", ["A"], cols=["f", "g", "i"]), S("v2", "method_op", ["v1"], m="floordiv", c=2, form="method"), S("v3", "filter_pred", ["v2"], pred=P("ge", "i", 1)), S("v4", "col", ["v3"], col="g")])
+    add("method-cmp-proj", [S("v1", "cols", ["A"], cols=["f", "g", "i"]), S("v2", "method_op", ["v1"], m="ge", c=2, form="method"), S("v3", "cols", ["v2"], cols=["i", "f"])])
+    add("operator-pow-mod", [S("v1", "col", ["A"], col="i"), S("v2", "method_op", ["v1"], m="pow", c=2, form="operator"), S("v3", "method_op", ["v2"], m="mod", c=3, form="operator")])
+    add("ufunc-proj", [S("v1", "cols", ["A"], cols=["f", "g", "i"]), S("v2", "ufunc", ["v1"], f="sign"), S("v3", "cols", ["v2"], cols=["g"])])
+    add("row-reduce-filter", [S("v1", "filter_pred", ["A"], pred=P("gt", "g", 0)), S("v2", "row_reduce", ["v1"], cols=["f", "g", "i"], how="var")])
+    add("rename-axis-filter-proj", [S("v1", "rename_axis", ["A"], name="ax"), S("v2", "filter_pred", ["v1"], pred=P("le", "i", 5)), S("v3", "cols", ["v2"], cols=["f", "k"])])
+    add("set-columns-proj", [S("v0", "cols", ["A"], cols=["k", "f", "g", "i"]), S("v1", "set_columns", ["v0"], names=["c0", "c1", "c2", "c3"]), S("v2", "cols", ["v1"], cols=["c2", "c0"])])
+    add("set-columns-filter", [S("v0", "cols", ["A"], cols=["k", "f", "g", "i"]), S("v1", "set_columns", ["v0"], names=["c0", "c1", "c2", "c3"]), S("v2", "filter_pred", ["v1"], pred=P("gt", "c1", 0)), S("v3", "col", ["v2"], col="c3")])
+    add("apply-rows-after-proj", [S("v1", "apply_rows", ["A"], cols=["f", "g", "i"])])
+    add("series-map-func-filter", [S("v1", "col", ["A"], col="i"), S("v2", "series_map_func", ["v1"]), S("v3", "binop_scalar", ["v2"], op="gt", c=3, r=False)])
+    add("index-to-frame-proj", [S("v1", "filter_pred", ["A"], pred=P("gt", "f", 0)), S("v2", "index_to", ["v1"], how="to_frame")])
+    add("case-when-chain", [S("v1", "col", ["A"], col="f"), S("v2", "case_when", ["v1"], c=0, v=9, cmp="gt"), S("v3", "binop_scalar", ["v2"], op="add", c=1, r=False)])
+    add("sample-all-filter", [S("v1", "sample_all", ["A"]), S("v2", "filter_pred", ["v1"], pred=P("gt", "g", 0)), S("v3", "cols", ["v2"], cols=["g", "rid"])])
+    add("explode-proj-filter", [S("v1", "explode", ["A"], col="s"), S("v2", "filter_pred", ["v1"], pred=P("ge", "k", 1)), S("v3", "cols", ["v2"], cols=["f", "s"])])
+    add("explode-proj-without-col", [S("v1", "explode", ["A"], col="s"), S("v2", "cols", ["v1"], cols=["f", "k"])])
+    add("frame-nunique-proj", [S("v1", "cols", ["A"], cols=["k", "s", "f"]), S("v2", "frame_nunique", ["v1"])])
+    for how in ("median", "prod"):
+        add(f"groupby-{how}-proj", [S("v1", "groupby_holistic", ["A"], by=["k"], cols=["f", "i"], how=how, series=False), S("v2", "col", ["v1"], col="i")])
+        add(f"groupby-{how}-after-filter", [S("v1", "filter_pred", ["A"], pred=P("gt", "g", 0)), S("v2", "groupby_holistic", ["v1"], by=["s"], cols=["f"], how=how, series=True)])
+    for how in ("cov", "corr"):
+        add(f"groupby-{how}-complete", [S("v1", "groupby_holistic", ["A"], by=["k"], cols=["i", "m"], how=how, series=False)])
+        add(f"groupby-{how}-filtered", [S("v1", "filter_pred", ["A"], pred=P("ge", "i", 2)), S("v2", "groupby_holistic", ["v1"], by=["k"], cols=["i", "rid"], how=how, series=False)])
+    add("pivot-sum-proj", [S("v0", "dropna", ["A"], subset=["s"]), S("v1", "pivot_table", ["v0"], index="k", columns="s", values="i", aggfunc="sum"), S("v2", "cols", ["v1"], cols=["a", "b"])])
+    add("pivot-mean-after-filter", [S("v0", "dropna", ["A"], subset=["s"]), S("v1", "filter_pred", ["v0"], pred=P("ge", "i", 1)), S("v2", "pivot_table", ["v1"], index="k", columns="s", values="rid", aggfunc="mean")])
     add("where-mask", [S("v1", "col", ["A"], col="f"), S("v2", "col", ["A"], col="b"), S("v3", "where", ["v1", "v2"], how="where", other=0)])
     add("str-accessor", [S("v1", "col", ["A"], col="s"), S("v2", "accessor", ["v1"], acc="str", f="upper")])
     add("index-of-filter", [S("v1", "filter_pred", ["A"], pred=P("gt", "f", 0)), S("v2", "index_of", ["v1"])])
